@@ -574,6 +574,12 @@ func vscripts(maxLen int, rng *vrng) []vscript {
 		{"df", "ua:1", "df", "ua:0", "df", "dr"},
 		{"df", "ua:1", "ua:0", "df", "dr"},
 		{"df", "ua:1", "st", "df"},
+		// several address updates while disconnected, then Stop: the supervisor must stop although the idle client was already closed/discarded
+		{"df", "ua:1", "ua:0", "st", "dr"},
+		{"df", "ua:1", "ua:1", "st", "dr"},
+		{"df", "ua:1", "ua:0", "ua:1", "st", "dr"},
+		{"df", "df", "ua:1", "ua:0", "st", "dr"},
+		{"hf", "ua:1", "ua:0", "st", "df"},
 		{"dr", "ua:1", "dr", "cu:0", "df", "df"},
 		{"cu:1", "cu:0", "cu:1", "df", "df"},
 		{"df", "df", "df", "df", "df", "df", "dr", "df", "df"},
